@@ -416,7 +416,7 @@ FALSE = sp.S.false
 
 ORDER_PREDS = {'olt': ('f', '<'), 'ole': ('f', '<='), 'oeq': ('*', '='),
                'slt': ('s', '<'), 'sle': ('s', '<='), 'ult': ('u', '<'), 'ule': ('u', '<='), 'eq': ('*', '=')}
-OPAQUE_PREFIXES = ('op_', 'sext', 'zext', 'trunc_', 'uitofp_', 'sitofp_', 'bits_')
+OPAQUE_PREFIXES = ('op_', 'sext', 'zext', 'trunc_', 'uitofp_', 'sitofp_', 'bits_', 'undef_')
 
 
 def fname(e):
@@ -2132,6 +2132,10 @@ class Interp:
                 raise Undecided('load from global @%s at a symbolic offset' % base[1])
             return self.input_scalar('@%s[%d]' % (base[1], off), ty)
         if k == 'alloca':
+            if ty[0] == 'fp' and not symbolic:
+                # an indeterminate value (e.g. the padding lane of a padded vector that is copied along): an opaque atom, harmless
+                # unless it reaches an output or a branch, where the clients report the slot as involving opaque atoms
+                return FpV(ty[1], atom('undef_%s' % type_str(ty).replace(' ', '_'), sym(base_name(base)), off))
             raise Undecided('load of uninitialised stack memory')
         raise Undecided('load through %s' % (base,))
 
